@@ -212,17 +212,17 @@ class SelectEventLoop(EventLoop):
             else:
                 ready = []
 
-        if not ready:
-            if tm == "idle":
+        if tm == "idle":
+            if not ready:
                 self.logger.debug("No input, entering IDLE")
                 self._entering_idle()
                 self._did_something = False
-            elif tm is not None:
-                # must have been a timeout
-                tm, _tie_break, alarm_callback = heapq.heappop(self._alarms)
-                self.logger.debug(f"No input in timeout, calling scheduled {alarm_callback!r}")
-                alarm_callback()
-                self._did_something = True
+        elif tm is not None and (not ready or time.time() >= tm):
+            # must have been a timeout - or the alarm became due while input kept arriving
+            tm, _tie_break, alarm_callback = heapq.heappop(self._alarms)
+            self.logger.debug(f"Calling scheduled {alarm_callback!r}")
+            alarm_callback()
+            self._did_something = True
 
         self.logger.debug("Processing input")
         for record in ready:
